@@ -38,6 +38,11 @@ CHECKS = {
          "All trees of depth 1 over 22 leaves and of depth 2 over a 12-leaf pool (1/10 sample in quick, all in thorough), random trees to depth 5, each printed with minimal / random / full parentheses and with every leaf wrapped in a recording helper. Engine and reference must agree on value, on error vs no error and on the order and multiplicity of leaf evaluation (short circuit); the printings must agree among themselves. Operand pairs the property leaves open are executed but not judged (counted as abstained).",
          "Trusted: the 150-line reference evaluator as the reading of the property text; Go int/float64 arithmetic as the meaning of integer/float operators.",
          "DESIGN.md §5 C06"),
+ "C07": ("exploration",
+         "runtime monitor: exhaustive kind x syntactic-context truth matrix against the property's truth table, and branch-selection monitor with recording condition helpers over all truth assignments of if/else-if/else chains",
+         "Every value kind of the pool is tested in 13 syntactic contexts and must have the table's truth value in all of them; chains of up to 5 branches with every truth assignment are rendered in 7 nesting contexts and two layouts, with conditions wrapped in a recording helper: exactly the first truthy branch's marker is output and exactly the conditions up to it are evaluated.",
+         "Trusted: the truth table as transcribed from the property text; recording helper is exact (single-threaded renders).",
+         "DESIGN.md §5 C07"),
 }
 NOT_YET = "check not built yet in this round (see DESIGN.md §5 for the planned monitor)"
 
